@@ -34,7 +34,13 @@ partial def specHistory (cfg : Cfg) (tgt : Tgt) (byteSource : Bool) (bs : Bytes)
     | b :: _ =>
       match Spec.Pos.scanValue (r.length + 2) r p with
       | .eof => s!"eof@{p}" :: go r p (k - 1) true true
-      | .dead _ _ => s!"syntax@{p}" :: go r p (k - 1) true true
+      | .dead _ si =>
+        -- "a \u escape cut off by the end of input counts as truncation" (C12): a fault inside a \u group whose four
+        -- bytes are not all there is Eof, whatever the bytes that are there
+        let cut := match si with
+          | some i => i.hexEnd != 0 && i.hexEnd > p + r.length
+          | none => false
+        (if cut then s!"eof@{p}" else s!"syntax@{p}") :: go r p (k - 1) true true
       | .ok rest' e =>
         let span := r.take (e - p)
         let selfDel := b == 0x5b || b == 0x22 || b == 0x7b
